@@ -22,7 +22,8 @@ LEAN_TARGETS = ['CfVerif.Props.C12']
 PROPS_MODULES = ['CfVerif.Props.C12']
 DRIVER = 'Driver/C12.lean'
 REQUIRED_THEOREMS = ['CfVerif.C12.refused_if_too_big', 'CfVerif.C12.upload_covers_once', 'CfVerif.C12.flash_exact',
-                     'CfVerif.C12.write_flash_attempts_bounded', 'CfVerif.C12.write_flash_ok_only_if_acked',
+                     'CfVerif.C12.write_flash_attempts_bounded', 'CfVerif.C12.write_flash_ok_only_if_acked', 'CfVerif.C12.abort_on_failure',
+                     'CfVerif.C12.ref_attempts_le', 'CfVerif.C12.ref_unanswered', 'CfVerif.C12.ref_answered_at_once',
                      'CfVerif.C12.gen_upload', 'CfVerif.C12.gen_upload_room', 'CfVerif.C12.gen_write_flash', 'CfVerif.C12.gen_retry_test',
                      'CfVerif.C12.gen_internal_flash', 'CfVerif.C12.gen_constants']
 TRUSTED = ['harness/corr/c12.py: extractor (AST -> Gen/C12.lean), fake link, Python twin of the Spec target, canonicalisers',
